@@ -457,7 +457,9 @@ class WSGITask(Task):
             if isinstance(app_iter, ReadOnlyFileBasedBuffer):
                 cl = self.content_length
                 size = app_iter.prepare(cl)
-                if size and self.has_body:
+                # the fast path frames the response itself: only usable while
+                # nothing has been written through write() yet
+                if size and self.has_body and not self.wrote_header:
                     if cl != size:
                         if cl is not None:
                             self.remove_content_length_header()
